@@ -13,6 +13,8 @@ search : the definitions evaluated in `fractions.Fraction` on M[L1][:, L2] block
          single-network method; list vs numpy-array node lists; CoupledClimateNetwork
          wrappers
 """
+import contextlib
+import io
 import itertools
 import math
 import warnings
@@ -978,6 +980,44 @@ def relations(ctx, cases, impl_results, IN, quick):
                          f"same lists ({L1}, {L2})",
                          replay_of(c, L1, L2, method=nm, with_lists=str(res[nm]),
                                    with_arrays=str(got)))
+    # ---- sub-objects and the remaining delegates ---------------------------------
+    from pyunicorn.core import Network
+    for (c, L1, L2), (res, _) in sub:
+        subnet = None
+        try:
+            subnet = c.net.subnetwork(L1)
+            got = (canon_impl(subnet.adjacency), canon_impl(subnet.node_weights),
+                   bool(subnet.directed), int(subnet.N))
+        except Exception as e:  # noqa
+            got = "raise:" + type(e).__name__
+        exp = (res["internal_adjacency"], [[float(c.w[i]) for i in L1]], bool(c.directed), len(L1))
+        if len(L1) < 2:
+            # a Network on a single node cannot be constructed at all (link density 0/0 in
+            # Network.__init__): not C11's subject, only the error must be the constructor's
+            ctx.count("relation:subnetwork-single-node")
+            if got == "raise:ZeroDivisionError":
+                continue
+        ctx.count("relation:subnetwork")
+        if isinstance(got, str) or not (exact_equal(got[0], exp[0]) and exact_equal(got[1], exp[1])
+                                        and got[2:] == exp[2:]):
+            ctx.fail(sig("subnetwork", "definition-on-sub-blocks", c),
+                     f"subnetwork({L1}) is not the network on the internal adjacency block with "
+                     f"the group's node weights",
+                     replay_of(c, L1, L2, method="subnetwork", expected=str(exp)[:300],
+                               observed=str(got)[:300]))
+        if not c.directed:
+            ref_net = Network(adjacency=np.array(c.A, dtype=np.int8).reshape(c.n, c.n),
+                              directed=False, node_weights=np.array([float(x) for x in c.w]),
+                              silence_level=3)
+            ref = call(lambda: ref_net.nsi_betweenness(sources=list(L1), targets=list(L2)))
+            got = call(lambda: c.net.nsi_cross_betweenness(L1, L2))
+            ctx.count("relation:nsi-cross-betweenness-delegate")
+            if not impl_close(ref, got):
+                ctx.fail(sig("nsi_cross_betweenness", "equals-network-nsi-betweenness-of-groups", c),
+                         f"nsi_cross_betweenness({L1}, {L2}) differs from Network.nsi_betweenness("
+                         f"sources, targets) of an identical fresh network",
+                         replay_of(c, L1, L2, method="nsi_cross_betweenness", expected=str(ref)[:300],
+                                   observed=str(got)[:300]))
     # ---- both groups = all nodes --------------------------------------------
     for c in seen_nets.values():
         whole_network(ctx, c, rng)
@@ -1297,7 +1337,7 @@ def ccn_checks(ctx, quick):
         p = rng.choice([0.3, 0.5, 0.8])
         bits = [rng.random() < p for _ in range(n * (n - 1) // 2)]
         A = graph_from_bits(n, bits, False)
-        S = np.where(np.array(A) == 1, 0.9, 0.1)
+        S = np.where(np.array(A) == 1, 0.875, 0.125)   # exact in float32 as well
         np.fill_diagonal(S, 1.0)
         try:
             ccn = CoupledClimateNetwork(g1, g2, S, threshold=0.5, silence_level=3)
@@ -1321,15 +1361,64 @@ def ccn_checks(ctx, quick):
                  {"class": "CoupledClimateNetwork", "adjacency": A, "N_1": N1})
         ctx.count("ccn:networks")
 
-        def both(name):
-            return (getattr(o, name)(L1, L2), getattr(o, name)(L2, L1))
+        # a dyadic link attribute for the wrappers' non-default `link_attribute` argument
+        la = [[Fr(0)] * n for _ in range(n)]
+        for a in range(n):
+            for b in range(a):
+                if A[a][b]:
+                    la[a][b] = la[b][a] = Fr(rng.randrange(1, 13), 4)
+        c.la = la
+        has_links = any(any(r) for r in A)
+        if has_links:
+            ccn.set_link_attribute("la", np.array([[float(x) for x in r] for r in la]))
+            c.Dw = floyd(n, [[la[a][b] if A[a][b] else None for b in range(n)]
+                             for a in range(n)])
+        o = Oracle(n, False, A, c.w, c.la, c.Du, c.Dw)
+        held1, held2 = list(ccn.nodes_1), list(ccn.nodes_2)
+
+        def both(name, *extra):
+            return (getattr(o, name)(L1, L2, *extra), getattr(o, name)(L2, L1, *extra))
 
         def pair(v):
             return v if isinstance(v, str) else tuple(v)
+
+        def split(v):
+            return ([v[i] for i in L1], [v[i] for i in L2])
+
+        # independent great-circle angular distance between the grid points of the two layers
+        lat = np.radians(np.concatenate([g1.grid()["lat"], g2.grid()["lat"]]).astype(float))
+        lon = np.radians(np.concatenate([g1.grid()["lon"], g2.grid()["lon"]]).astype(float))
+        cosd = (np.sin(lat)[:, None] * np.sin(lat)[None, :]
+                + np.cos(lat)[:, None] * np.cos(lat)[None, :]
+                * np.cos(lon[:, None] - lon[None, :]))
+        ang = np.arccos(np.clip(cosd, -1.0, 1.0))
+        Anp = np.array(A, dtype=float)
+        with np.errstate(all="ignore"):
+            cald = [(Anp[:N1, N1:] * ang[:N1, N1:]).sum(axis=ax) / Anp[:N1, N1:].sum(axis=ax)
+                    for ax in (1, 0)]
+        Sfull = np.array(ccn.similarity_measure(), dtype=float)
         table = [
             ("adjacency_1", ccn.adjacency_1, o.internal_adjacency(L1, L2)),
             ("adjacency_2", ccn.adjacency_2, o.internal_adjacency(L2, L1)),
+        ]
+        # (a GeoNetwork on a single node cannot be constructed: Network.__init__ divides by
+        #  N (N - 1); not C11's subject)
+        if N1 > 1:
+            table.append(("network_1.adjacency", lambda: ccn.network_1().adjacency,
+                          o.internal_adjacency(L1, L2)))
+        if N2 > 1:
+            table.append(("network_2.adjacency", lambda: ccn.network_2().adjacency,
+                          o.internal_adjacency(L2, L1)))
+        table += [
             ("cross_layer_adjacency", ccn.cross_layer_adjacency, o.cross_adjacency(L1, L2)),
+            ("similarity_measure_1", ccn.similarity_measure_1, ("np", S[:N1, :N1], 0.0)),
+            ("similarity_measure_2", ccn.similarity_measure_2, ("np", S[N1:, N1:], 0.0)),
+            ("cross_similarity_measure", ccn.cross_similarity_measure, ("np", S[:N1, N1:], 0.0)),
+            ("cross_link_distance", ccn.cross_link_distance, ("np", ang[:N1, N1:], 5e-6)),
+            ("cross_average_link_distance", ccn.cross_average_link_distance,
+             ("np", cald[0], 5e-6)),
+            ("cross_average_link_distance(reverse=True)",
+             lambda: ccn.cross_average_link_distance(reverse=True), ("np", cald[1], 5e-6)),
             ("path_lengths_1", ccn.path_lengths_1, o.internal_path_lengths(L1, L2)),
             ("path_lengths_2", ccn.path_lengths_2, o.internal_path_lengths(L2, L1)),
             ("cross_path_lengths", ccn.cross_path_lengths, o.cross_path_lengths(L1, L2)),
@@ -1338,6 +1427,8 @@ def ccn_checks(ctx, quick):
             ("number_internal_links", ccn.number_internal_links, both("number_internal_links")),
             ("cross_link_density", ccn.cross_link_density, o.cross_link_density(L1, L2)),
             ("internal_link_density", ccn.internal_link_density, both("internal_link_density")),
+            ("internal_global_clustering", ccn.internal_global_clustering,
+             both("internal_global_clustering")),
             ("cross_global_clustering", ccn.cross_global_clustering,
              both("cross_global_clustering")),
             ("cross_transitivity", ccn.cross_transitivity, both("cross_transitivity")),
@@ -1351,17 +1442,50 @@ def ccn_checks(ctx, quick):
              both("cross_local_clustering")),
             ("cross_closeness", ccn.cross_closeness, both("cross_closeness")),
             ("internal_closeness", ccn.internal_closeness, both("internal_closeness")),
+            ("cross_betweenness", ccn.cross_betweenness, split(oracle_betweenness(c, L1, L2))),
+            ("internal_betweenness_1", ccn.internal_betweenness_1,
+             split(oracle_betweenness(c, L1, L1))),
+            ("internal_betweenness_2", ccn.internal_betweenness_2,
+             split(oracle_betweenness(c, L2, L2))),
         ]
+        if has_links:
+            D = c.Dw
+            table += [
+                ("path_lengths_1(la)", lambda: ccn.path_lengths_1("la"),
+                 o.internal_path_lengths(L1, L2, D)),
+                ("path_lengths_2(la)", lambda: ccn.path_lengths_2(link_attribute="la"),
+                 o.internal_path_lengths(L2, L1, D)),
+                ("cross_path_lengths(la)", lambda: ccn.cross_path_lengths("la"),
+                 o.cross_path_lengths(L1, L2, D)),
+                ("cross_average_path_length(la)", lambda: ccn.cross_average_path_length("la"),
+                 o.cross_average_path_length(L1, L2, D)),
+                ("internal_average_path_length(la)",
+                 lambda: ccn.internal_average_path_length("la"),
+                 both("internal_average_path_length", D)),
+                ("cross_closeness(la)", lambda: ccn.cross_closeness("la"),
+                 both("cross_closeness", D)),
+                ("internal_closeness(la)", lambda: ccn.internal_closeness(link_attribute="la"),
+                 both("internal_closeness", D)),
+            ]
+        rng.shuffle(table)
         for nm, f, exp in table:
             ctx.count("ccn:wrapper-calls")
             try:
                 with warnings.catch_warnings():
                     warnings.simplefilter("ignore")
                     with np.errstate(all="ignore"):
-                        got = f()
+                        with contextlib.redirect_stdout(io.StringIO()):
+                            got = f()
             except Exception as e:  # noqa
                 got = "raise:" + type(e).__name__
-            if isinstance(exp, tuple):
+            if isinstance(exp, tuple) and len(exp) == 3 and isinstance(exp[0], str) \
+                    and exp[0] == "np":
+                ref, tol = np.asarray(exp[1], dtype=float), exp[2]
+                g = None if isinstance(got, str) else np.asarray(got, dtype=float)
+                ok = g is not None and g.shape == ref.shape and bool(np.all(
+                    (np.isnan(g) & np.isnan(ref)) | (np.abs(g - ref) <= tol)))
+                exp = ref.tolist()
+            elif isinstance(exp, tuple):
                 ok = (isinstance(got, tuple) and len(got) == 2 and all(
                     (isinstance(e_, str) and e_.startswith("raise:")) or
                     same(canon_impl(g_), shape_exact(e_)) for g_, e_ in zip(got, exp))) or \
@@ -1375,3 +1499,11 @@ def ccn_checks(ctx, quick):
                          f"layer blocks (N_1={N1}, N_2={N2})",
                          {"adjacency": A, "N_1": N1, "N_2": N2, "method": nm,
                           "expected": str(exp)[:400], "observed": str(got)[:400]})
+        ctx.count("relation:library-state-intact")
+        if list(ccn.nodes_1) != held1 or list(ccn.nodes_2) != held2 or \
+                [[int(x) for x in r] for r in np.asarray(ccn.adjacency).tolist()] != A:
+            ctx.fail({"class": "CoupledClimateNetwork", "method": "<history of wrapper calls>",
+                      "relation": "library-state-intact"},
+                     "nodes_1 / nodes_2 / adjacency held by the CoupledClimateNetwork changed "
+                     "during a history of wrapper calls",
+                     {"adjacency": A, "N_1": N1, "N_2": N2})
